@@ -24,10 +24,14 @@ func symView(maxb int) *memFS {
 		}
 		fs.entries = append(fs.entries, e)
 	}
-	add("d", clsDir)
 	firstFile := ""
-	for _, p := range []string{"d/f", "e", "g"} {
-		if p == "g" && !v.Bool("has-g") {
+	// ".g": an optional entry whose name starts with a dot (sorts before everything else)
+	for _, p := range []string{".g", "d", "d/f", "e"} {
+		if p == "d" {
+			add("d", clsDir)
+			continue
+		}
+		if p == ".g" && !v.Bool("has-g") {
 			continue
 		}
 		// class clsCount: a hard link to the first regular file announced so far (a regular
